@@ -352,7 +352,7 @@ func (c *clipperBase) fixSelfIntersects(outrec *OutRec) {
 
 	for {
 		if segsIntersect(op2.prev.pt, op2.pt, op2.next.pt, op2.next.next.pt, false) {
-			if segsIntersect(op2.prev.pt, op2.pt, op2.next.next.next.pt, op2.next.next.next.next.pt, false) {
+			if segsIntersect(op2.prev.pt, op2.pt, op2.next.next.pt, op2.next.next.next.pt, false) {
 				op2 = duplicateOp(op2, false)
 				op2.pt = op2.next.next.next.pt
 				op2 = op2.next
